@@ -510,51 +510,60 @@ func (p *Program) CallGraph() map[string][]string {
 	if p.cg != nil {
 		return p.cg
 	}
-	byName := map[string][]string{} // method name -> keys
-	for k, fi := range p.Funcs {
-		if fi.Decl.Recv != nil {
-			byName[fi.Decl.Name.Name] = append(byName[fi.Decl.Name.Name], k)
-		}
-	}
 	cg := map[string][]string{}
 	for k, fi := range p.Funcs {
 		if fi.Decl.Body == nil || strings.HasSuffix(fi.File, "_test.go") {
 			continue
 		}
-		info := fi.Pkg.TypesInfo
-		seen := map[string]bool{}
-		add := func(t string) {
-			if !seen[t] {
-				seen[t] = true
-				cg[k] = append(cg[k], t)
+		cg[k] = p.calleesIn(fi, fi.Decl.Body)
+	}
+	p.cg = cg
+	return cg
+}
+
+// calleesIn: module functions called or referenced inside node (a body of fi or a closure literal in it).
+func (p *Program) calleesIn(fi *FuncInfo, node ast.Node) []string {
+	if p.byMethodName == nil {
+		p.byMethodName = map[string][]string{}
+		for k, f := range p.Funcs {
+			if f.Decl.Recv != nil {
+				p.byMethodName[f.Decl.Name.Name] = append(p.byMethodName[f.Decl.Name.Name], k)
 			}
 		}
-		ast.Inspect(fi.Decl.Body, func(n ast.Node) bool {
-			switch e := n.(type) {
-			case *ast.Ident:
-				if fn, ok := info.Uses[e].(*types.Func); ok {
+	}
+	info := fi.Pkg.TypesInfo
+	seen := map[string]bool{}
+	var out []string
+	add := func(t string) {
+		if !seen[t] {
+			seen[t] = true
+			out = append(out, t)
+		}
+	}
+	ast.Inspect(node, func(n ast.Node) bool {
+		switch e := n.(type) {
+		case *ast.Ident:
+			if fn, ok := info.Uses[e].(*types.Func); ok {
+				if cfi := p.ByObj[fn]; cfi != nil {
+					add(cfi.Key)
+				}
+			}
+		case *ast.SelectorExpr:
+			if sel, ok := info.Selections[e]; ok && sel.Kind() == types.MethodVal {
+				if fn, ok := sel.Obj().(*types.Func); ok {
 					if cfi := p.ByObj[fn]; cfi != nil {
 						add(cfi.Key)
-					}
-				}
-			case *ast.SelectorExpr:
-				if sel, ok := info.Selections[e]; ok && sel.Kind() == types.MethodVal {
-					if fn, ok := sel.Obj().(*types.Func); ok {
-						if cfi := p.ByObj[fn]; cfi != nil {
-							add(cfi.Key)
-						} else if _, isIface := sel.Recv().Underlying().(*types.Interface); isIface {
-							for _, t := range byName[fn.Name()] {
-								add(t)
-							}
+					} else if _, isIface := sel.Recv().Underlying().(*types.Interface); isIface {
+						for _, t := range p.byMethodName[fn.Name()] {
+							add(t)
 						}
 					}
 				}
 			}
-			return true
-		})
-	}
-	p.cg = cg
-	return cg
+		}
+		return true
+	})
+	return out
 }
 
 // FrameUnit builds the C03 frame obligations: no package-level variable is written on any path reachable from an
@@ -955,4 +964,258 @@ func (p *Program) OnDirectCycle(fi *FuncInfo) bool {
 		stack = append(stack, p.dcg[k]...)
 	}
 	return false
+}
+
+// ---------------------------------------------------------------------
+// Inferred field frames: which functions can write a given struct field.
+//
+// A function is a DIRECT writer of field f when
+//   - f occurs on the path of an assignment / inc-dec target (x.f = .., x.f.g = .., x.f[i] = ..), or under &; or
+//   - f is not of scalar (basic) type and the function, not being syntactically read-only, mentions f at all
+//     (a reference-typed field can be written through any copy of it, a struct-typed one through a method); or
+//   - it stores a whole struct of f's type through a pointer (*p = v), or hands a pointer to such a struct to a
+//     function outside the module (which may write it by reflection).
+// A function MAY write f when it reaches a direct writer in the (interface-aware, over-approximate) call graph.
+// Under the ownership assumption (A-alias) a callee that may not write f leaves x.f unchanged.
+
+type fieldWriters struct {
+	byField map[*types.Var]map[string]bool
+	whole   map[*types.TypeName]map[string]bool
+	reach   map[string]map[string]bool
+	// calls through function values: a function that makes one may run any closure literal (attributed to the
+	// function containing it) or any function referenced as a value
+	dynCaller map[string]bool
+	dynTarget []string
+	extra     map[string][]string // edges to and from closure-literal nodes
+}
+
+func (p *Program) buildFieldWriters() *fieldWriters {
+	if p.fw != nil {
+		return p.fw
+	}
+	fw := &fieldWriters{byField: map[*types.Var]map[string]bool{}, whole: map[*types.TypeName]map[string]bool{}, reach: map[string]map[string]bool{},
+		dynCaller: map[string]bool{}, extra: map[string][]string{}}
+	dynT := map[string]bool{}
+	mark := func(f *types.Var, k string) {
+		if fw.byField[f] == nil {
+			fw.byField[f] = map[string]bool{}
+		}
+		fw.byField[f][k] = true
+	}
+	markWhole := func(t types.Type, k string) {
+		if pt, ok := t.Underlying().(*types.Pointer); ok {
+			t = pt.Elem()
+		}
+		if n, ok := t.(*types.Named); ok {
+			if _, isStruct := n.Underlying().(*types.Struct); isStruct {
+				if fw.whole[n.Obj()] == nil {
+					fw.whole[n.Obj()] = map[string]bool{}
+				}
+				fw.whole[n.Obj()][k] = true
+			}
+		}
+	}
+	for key, fi := range p.Funcs {
+		if fi.Decl.Body == nil || strings.HasSuffix(fi.File, "_test.go") {
+			continue
+		}
+		info := fi.Pkg.TypesInfo
+		fi := fi
+		var scan func(k string, node ast.Node, ro bool)
+		scan = func(k string, node ast.Node, ro bool) {
+			var pathFields func(e ast.Expr)
+			pathFields = func(e ast.Expr) {
+				switch e := ast.Unparen(e).(type) {
+				case *ast.SelectorExpr:
+					if sel, ok := info.Selections[e]; ok && sel.Kind() == types.FieldVal {
+						if f, ok := sel.Obj().(*types.Var); ok {
+							mark(f, k)
+						}
+					}
+					pathFields(e.X)
+				case *ast.IndexExpr:
+					pathFields(e.X)
+				case *ast.StarExpr:
+					if t := info.TypeOf(e); t != nil {
+						markWhole(t, k)
+					}
+					pathFields(e.X)
+				case *ast.SliceExpr:
+					pathFields(e.X)
+				}
+			}
+			inCallPos := map[*ast.Ident]bool{}
+			ast.Inspect(node, func(n ast.Node) bool {
+				switch s := n.(type) {
+				case *ast.FuncLit:
+					if ast.Node(s) == node {
+						return true
+					}
+					// closure literal: its own node (it may run inside any callee that calls through a function value)
+					lk := key + "$lit"
+					dynT[lk] = true
+					fw.extra[k] = append(fw.extra[k], lk)
+					fw.extra[lk] = append(fw.extra[lk], p.calleesIn(fi, s.Body)...)
+					scan(lk, s, false)
+					return false
+				case *ast.Ident:
+					if fn, ok := info.Uses[s].(*types.Func); ok && !inCallPos[s] {
+						if cfi := p.ByObj[fn]; cfi != nil {
+							dynT[cfi.Key] = true
+						}
+					}
+				case *ast.AssignStmt:
+					for _, l := range s.Lhs {
+						pathFields(l)
+					}
+				case *ast.IncDecStmt:
+					pathFields(s.X)
+				case *ast.RangeStmt:
+					if s.Tok == token.ASSIGN {
+						if s.Key != nil {
+							pathFields(s.Key)
+						}
+						if s.Value != nil {
+							pathFields(s.Value)
+						}
+					}
+				case *ast.UnaryExpr:
+					if s.Op == token.AND {
+						pathFields(s.X)
+					}
+				case *ast.SelectorExpr:
+					if sel, ok := info.Selections[s]; ok && sel.Kind() == types.FieldVal && !ro {
+						if f, ok := sel.Obj().(*types.Var); ok {
+							if _, scalar := f.Type().Underlying().(*types.Basic); !scalar {
+								mark(f, k)
+							}
+						}
+					}
+				case *ast.CallExpr:
+					var fn *types.Func
+					switch c := ast.Unparen(s.Fun).(type) {
+					case *ast.Ident:
+						fn, _ = info.Uses[c].(*types.Func)
+						inCallPos[c] = true
+					case *ast.SelectorExpr:
+						fn, _ = info.Uses[c.Sel].(*types.Func)
+						inCallPos[c.Sel] = true
+					}
+					if fn == nil {
+						if tv, ok := info.Types[s.Fun]; ok && !tv.IsType() && !tv.IsBuiltin() {
+							if _, isLit := ast.Unparen(s.Fun).(*ast.FuncLit); !isLit {
+								fw.dynCaller[k] = true
+							}
+						}
+					}
+					if fn != nil {
+						if _, inMod := p.ByObj[fn]; inMod {
+							return true
+						}
+					}
+					if tv, ok := info.Types[s.Fun]; ok && tv.IsType() {
+						return true // conversion
+					}
+					for _, a := range s.Args {
+						if t := info.TypeOf(a); t != nil {
+							if _, isPtr := t.Underlying().(*types.Pointer); isPtr {
+								markWhole(t, k)
+							}
+						}
+					}
+				}
+				return true
+			})
+		}
+		scan(key, fi.Decl.Body, p.IsReadonly(fi))
+	}
+	for k := range dynT {
+		fw.dynTarget = append(fw.dynTarget, k)
+	}
+	sort.Strings(fw.dynTarget)
+	p.fw = fw
+	return fw
+}
+
+func (p *Program) reachable(from string) map[string]bool {
+	fw := p.buildFieldWriters()
+	if r, ok := fw.reach[from]; ok {
+		return r
+	}
+	cg := p.CallGraph()
+	seen := map[string]bool{from: true}
+	stack := []string{from}
+	for len(stack) > 0 {
+		k := stack[len(stack)-1]
+		stack = stack[:len(stack)-1]
+		for _, t := range append(append([]string{}, cg[k]...), fw.extra[k]...) {
+			if !seen[t] {
+				seen[t] = true
+				stack = append(stack, t)
+			}
+		}
+		if fw.dynCaller[k] && !seen["$dynamic"] {
+			seen["$dynamic"] = true
+			for _, t := range fw.dynTarget {
+				if !seen[t] {
+					seen[t] = true
+					stack = append(stack, t)
+				}
+			}
+		}
+	}
+	fw.reach[from] = seen
+	return seen
+}
+
+// MayWriteField: fi, or anything it can call, is a direct writer of field f of struct type owner.
+func (p *Program) MayWriteField(fi *FuncInfo, owner *types.TypeName, f *types.Var) bool {
+	fw := p.buildFieldWriters()
+	r := p.reachable(fi.Key)
+	for k := range fw.byField[f] {
+		if r[k] {
+			return true
+		}
+	}
+	if owner != nil {
+		for k := range fw.whole[owner] {
+			if r[k] {
+				return true
+			}
+		}
+	}
+	return false
+}
+
+// WhyReach prints one call path from -> to in the graph used for inferred field frames (debugging aid).
+func (p *Program) WhyReach(from, to string) []string {
+	fw := p.buildFieldWriters()
+	cg := p.CallGraph()
+	prev := map[string]string{from: ""}
+	queue := []string{from}
+	for len(queue) > 0 {
+		k := queue[0]
+		queue = queue[1:]
+		if k == to {
+			var path []string
+			for c := to; c != ""; c = prev[c] {
+				path = append([]string{c}, path...)
+			}
+			return path
+		}
+		next := append(append([]string{}, cg[k]...), fw.extra[k]...)
+		if fw.dynCaller[k] {
+			for _, t := range fw.dynTarget {
+				next = append(next, t+" (via function value)")
+			}
+		}
+		for _, t := range next {
+			tt := strings.TrimSuffix(t, " (via function value)")
+			if _, ok := prev[tt]; !ok {
+				prev[tt] = k
+				queue = append(queue, tt)
+			}
+		}
+	}
+	return nil
 }
